@@ -7,8 +7,9 @@ from vf.symnp import Sc
 
 LEVEL = "other"
 EXPLANATION = ("evec_disp2eig: the real function run by real numpy on object arrays of symbolic reals (sizes enumerated, values unbounded; z3 "
-               "NRA with Sqrt axioms): formula, unit norm, basis restoration, frame, rejection; evec_sort and evec_load: bounded run-time "
-               "contracts (random unitary bases with permutation/phases/perturbation; rendered matdyn files)")
+               "NRA with Sqrt axioms): formula, unit norm, basis restoration, frame, rejection; evec_sort: Hoare loop rule on the function's own "
+               "statements executed on a matrix of SYMBOLIC dimension (vf/looprule.py; invariant + counting lemmas in Lean) plus a bounded run-time contract; "
+               "evec_load: bounded run-time contract (rendered matdyn files)")
 D2E = "evec_disp2eig.evec_disp2eig"
 
 
@@ -17,8 +18,9 @@ def run(s):
     tier = s.tier
     s.trust("z3 5.1 (QF_NRA)", "numpy object-array arithmetic (the real numpy executes the function)")
     s.assume("A-FP", "Sqrt axioms: x >= 0 => Sqrt(x) >= 0 and Sqrt(x)^2 = x", "real displacement vectors in the deductive part (complex ones in the bounded part)")
-    s.undecided_part("greedy maximum-overlap sort for all dimensions / all unitary bases (loop over argmax of a matrix of symbolic size): bounded only",
-                     )
+    s.undecided_part("evec_sort: that a permuted, re-phased, <= 5 %-perturbed unitary basis has the dominant-overlap structure the loop-rule obligation assumes "
+                     "(A-DOM, Cauchy-Schwarz; stated, exercised by the bounded run), the dimension check in front of the loop (enumerated sizes only), the "
+                     "optional filter / threshold arguments")
     s.undecided_part("matdyn file loader (fixed-column string parsing): bounded only")
 
     def sym_case(N, M, tag=""):
@@ -128,10 +130,244 @@ def run(s):
         return core.proved("finite", "width != 3N raises RuntimeError")
     s.oblige("C20.disp2eig.rejects_dimension_mismatch", rejects, [D2E], kind="finite")
 
+    sort_loop_rule(s)
     bounded_d2e(s, d2e)
     bounded_sort(s)
     bounded_load(s)
-    s.min_obligations = 4
+    s.min_obligations = 6
+    s.required_names = ["C20.evec_sort.loop_rule(all dimensions)", "C20.disp2eig.formula_and_frame"]
+
+
+# ----------------------------------------------------------------------------------------------------------------------
+# evec_sort: the greedy elimination loop under the loop rule (vf/looprule.py), dimension n symbolic
+SORT = "evec_sort.evec_sort"
+
+
+def numpy_stub_globals(func, stub, extra):
+    """the function's module globals with every reference to the numpy module / a numpy function replaced by the stub"""
+    out = dict(extra)
+    for name, val in func.__globals__.items():
+        if val is numpy:
+            out[name] = stub
+        elif getattr(val, "__module__", "") and str(getattr(val, "__module__", "")).startswith("numpy") and callable(val) \
+                and getattr(numpy, getattr(val, "__name__", "?"), None) is val:
+            out[name] = getattr(stub, val.__name__)
+    return out
+
+
+def sort_setup(es):
+    from contracts import evec_env as E
+    from vf import looprule
+    n = z3.Int("n")
+    E.CTX[0] = E.Ctx(E.SInt(n))
+    pieces = looprule.Pieces(es.evec_sort, 0, stubs=numpy_stub_globals(es.evec_sort, E.NumpyStub(), {"len": E.sym_len, "range": E.sym_range}))
+    target = E.SymList(E.SInt(n), lambda k: E.TARGET(k))
+    env0 = {"target_arr": target, "target_evecs": E.SymVecs("target", E.SInt(n)), "base_evecs": E.SymVecs("base", E.SInt(n)),
+            "filter": None, "threshold": None}
+    missing = [a for a in pieces.args if a not in env0]
+    if missing or [a for a in env0 if a not in pieces.args]:
+        raise core.OutsideSubset("evec_sort's parameters are %s" % pieces.args)
+    return E, pieces, n, env0, target
+
+
+def state_of(E, env, target):
+    mats = [(k, v) for k, v in env.items() if isinstance(v, E.SymMat) and not v.real]
+    lists = [(k, v) for k, v in env.items() if isinstance(v, E.SymList) and v is not target]
+    if len(mats) != 1 or len(lists) != 1:
+        raise core.OutsideSubset("loop state: %d overlap matrices, %d result lists among the locals %s" % (len(mats), len(lists), sorted(env)))
+    return mats[0], lists[0]
+
+
+def sort_loop_rule(s):
+    es = importlib.import_module("cij.misc.evec_sort")
+    s.assume("A-ARGMAX: numpy.argmax returns the row-major first maximal entry, numpy.unravel_index its (row, column); conj(base) @ target.T is the overlap matrix "
+             "M[i][j] = sum_k conj(base[i][k]) target[j][k] (entries in an abstract normed field, so real and complex bases alike)",
+             "A-DOM: for a unitary base and target = (permutation, phases) of it plus row perturbations of norm <= eps = 5 %, |M[i][j] - phase_j delta(i, perm_j)| = "
+             "|<base_i, E_j>| <= eps (Cauchy-Schwarz), i.e. one entry >= 0.95 per row and column and all others <= 0.05: the precondition of the loop-rule obligation")
+    s.trust("lean 4 / Mathlib for lemmas/Counting.lean (pigeonhole facts used by the loop rule)")
+    I = z3.IntSort()
+    PI, PINV = z3.Function("pi", I, I), z3.Function("pinv", I, I)
+
+    def rng(n, *xs):
+        return z3.And(*[z3.And(x >= 0, x < n) for x in xs])
+
+    def precondition(E, n, eps):
+        """the property's input domain seen through the overlap matrix (A-DOM): a bijection pi of [0, n) with |M0[i, pi(i)]| >= 1 - eps and every other
+        entry <= eps, eps = 5 %"""
+        A = lambda i, j: E.ABS(E.M0(i, j))
+        sch = [(1, lambda i: z3.Implies(rng(n, i), z3.And(rng(n, PI(i)), PINV(PI(i)) == i))),
+               (1, lambda j: z3.Implies(rng(n, j), z3.And(rng(n, PINV(j)), PI(PINV(j)) == j))),
+               (2, lambda i, j: z3.Implies(z3.And(rng(n, i, j), j != PI(i)), A(i, j) <= eps)),
+               (1, lambda i: z3.Implies(rng(n, i), A(i, PI(i)) >= 1 - eps)),
+               (2, lambda i, j: z3.Implies(rng(n, i, j), A(i, j) >= 0))]
+        return sch, [E.ABS(E.ZERO) == 0, n >= 1]
+
+    def invariant(E, n, mat, lst, done, eps):
+        """Inv (about the abstraction, not about how entries are eliminated): overlaps of rows and columns still in play are intact, every entry of a
+        finished row or column is small (cleared or never dominant), finished rows hold their partner's item"""
+        return [(2, lambda i, j: z3.Implies(z3.And(rng(n, i, j), z3.Not(done(i)), z3.Not(done(PINV(j)))), mat(i, j) == E.M0(i, j))),
+                (2, lambda i, j: z3.Implies(z3.And(rng(n, i, j), z3.Or(done(i), done(PINV(j)))), E.ABS(mat(i, j)) <= eps)),
+                (1, lambda i: z3.Implies(z3.And(rng(n, i), done(i)), lst(i) == E.TARGET(PI(i))))]
+
+    def prove_all(goals, facts, schemas, terms, what):
+        from vf import looprule
+        inst = looprule.instantiate(schemas, terms)
+        t = 0.0
+        for name, g in goals:
+            r = smt.prove(g, facts + inst, tier=s.tier, name=name)
+            t += r.time_s
+            if r.status != core.PROVED:
+                r.detail = "%s: premise `%s` of the loop rule is not valid | %s" % (what, name, r.detail)
+                if r.status == core.REFUTED:
+                    r.replay, r.witness_id = native_sort(es), "sort-loop:%s" % name.split("[")[0]
+                return r, t
+        return None, t
+
+    def with_pre(eps=z3.RealVal("1/20")):
+        E, pieces, n, env0, target = sort_setup(es)
+        c = E.ctx()
+        pre_s, pre_f = precondition(E, n, eps)
+        tot, nprem = 0.0, 0
+        # ---- premise 1: {pre} prefix {Inv(0)}
+        out = pieces.run_prefix(env0)
+        if out.kind != "fall":
+            return core.refuted("looprule", "the code before the loop returns (%s) for square inputs" % out.kind, witness_id="sort-loop:prefix", replay=native_sort(es))
+        (mname, mat0), (lname, lst0) = state_of(E, out.env, target)
+        tgt, it = pieces.loop_header(out.env)
+        if not isinstance(it, E.SymRange) or not isinstance(tgt, __import__("ast").Name):
+            raise core.OutsideSubset("the loop does not run over range(<dimension>)")
+        i0, j0 = z3.Int("i0"), z3.Int("j0")
+        done0 = lambda i: z3.BoolVal(False)
+        goals = [("Inv0[%d]" % k, f(*([i0, j0][:a]))) for k, (a, f) in enumerate(invariant(E, n, mat0.elem, lst0.fn, done0, eps))]
+        goals += [("range is 0..n", z3.And(it.lo == 0, it.hi == n)), ("result list has length n", lst0.n.z == n), ("matrix is n x n", mat0.n.z == n)]
+        goals += [("bound: " + d, b) for d, b in c.bounds]
+        r, t = prove_all(goals, pre_f + c.facts + [rng(n, i0, j0)], pre_s + c.schemas, [i0, j0, PI(i0), PINV(j0)], "prefix")
+        tot += t
+        nprem += len(goals)
+        if r:
+            return r
+        prefix_env = out.env
+        # ---- premise 2: {Inv(k), 0 <= k < n} body {Inv(k+1)}
+        E.CTX[0] = c = E.Ctx(E.SInt(n))
+        k = z3.Int("k")
+        MAT = z3.Function("MAT", I, I, E.Cx)
+        LST = z3.Function("LST", I, E.Item)
+        DONE = z3.Function("DONE", I, z3.BoolSort())
+        u = z3.Int("u")                         # Counting.exists_not_done: |done| = k < n  =>  some row is not done
+        env = dict(prefix_env)
+        env[mname] = E.SymMat(E.SInt(n), lambda i, j: MAT(i, j), origin="loop state")
+        env[lname] = E.SymList(E.SInt(n), lambda i: LST(i))
+        frozen = {nm: v for nm, v in env.items() if nm not in (mname, lname)}
+        tfn = target.fn
+        outb = pieces.run_body(env, E.SInt(k))
+        if outb.kind != "fall":
+            return core.refuted("looprule", "the loop body leaves the loop (%s) although threshold is None" % outb.kind, witness_id="sort-loop:body", replay=native_sort(es))
+        for nm, v in frozen.items():
+            if outb.env.get(nm) is not v and nm != tgt.id:
+                raise core.OutsideSubset("the loop body rebinds %s, which the invariant treats as constant" % nm)
+        if target.fn is not tfn:
+            return core.refuted("looprule", "the loop body writes into the list to be sorted", witness_id="sort-loop:frame", replay=native_sort(es))
+        (_, mat1), (_, lst1) = state_of(E, outb.env, target)
+        picks = [(c.terms[q], c.terms[q + 1]) for q in range(0, len(c.terms), 2)]
+        if len(picks) != 1:
+            raise core.OutsideSubset("the loop body takes %d arg-maxima per iteration; the ghost update of the invariant expects one" % len(picks))
+        r_, c_ = picks[0]
+        done1 = lambda i: z3.Or(DONE(i), i == r_)
+        facts = pre_f + c.facts + [k >= 0, k < n, rng(n, u), z3.Not(DONE(u)), rng(n, i0, j0)]
+        schemas = pre_s + c.schemas + invariant(E, n, lambda i, j: MAT(i, j), lambda i: LST(i), lambda i: DONE(i), eps)
+        goals = [("Inv'[%d]" % q, f(*([i0, j0][:a]))) for q, (a, f) in enumerate(invariant(E, n, mat1.elem, lst1.fn, done1, eps))]
+        goals += [("the chosen row was not done (so |done| grows by one: Counting.card_insert_done)", z3.Not(DONE(r_)))]
+        goals += [("bound: " + d, b) for d, b in c.bounds]
+        terms = [i0, j0, r_, c_, u, PI(u), PI(r_), PINV(c_), PINV(j0), PI(i0)]
+        r, t = prove_all(goals, facts, schemas, terms, "body")
+        tot += t
+        nprem += len(goals)
+        if r:
+            return r
+        # ---- premise 3: {Inv(n)} suffix {post}   (|done| = n  =>  every row is done: Counting.all_done_of_card)
+        E.CTX[0] = c = E.Ctx(E.SInt(n))
+        env = dict(prefix_env)
+        env[mname] = E.SymMat(E.SInt(n), lambda i, j: MAT(i, j), origin="loop state")
+        env[lname] = E.SymList(E.SInt(n), lambda i: LST(i))
+        outs = pieces.run_suffix(env)
+        if outs.kind != "return" or not isinstance(outs.value, E.SymList):
+            return core.refuted("looprule", "after the loop the function does not return the result list (%s, %r)" % (outs.kind, outs.value), witness_id="sort-loop:suffix",
+                                replay=native_sort(es))
+        schemas = pre_s + invariant(E, n, lambda i, j: MAT(i, j), lambda i: LST(i), lambda i: DONE(i), eps) + [(1, lambda i: z3.Implies(rng(n, i), DONE(i)))]
+        goals = [("post: result[i] = target_arr[pi(i)]", outs.value.fn(i0) == E.TARGET(PI(i0))), ("post: the result has n entries", outs.value.n.z == n)]
+        r, t = prove_all(goals, pre_f + c.facts + [rng(n, i0)], schemas, [i0, PI(i0)], "suffix")
+        tot += t
+        nprem += len(goals)
+        if r:
+            return r
+        s.notes["evec_sort_loop_rule"] = dict(pieces.dropped(), premises=nprem, products=E_products(prefix_env, E),
+                                              invariant="entries of rows and columns still in play equal M; entries of finished rows / columns have modulus <= 5 %; finished rows hold target_arr[pi(i)]; |done| = k",
+                                              precondition="a bijection pi with |M[i][pi(i)]| >= 0.95 and every other |M[i][j]| <= 0.05 (A-DOM: permuted, re-phased basis with row perturbations of norm <= 5 %)")
+        return core.proved("z3", "loop rule on evec_sort for EVERY dimension n >= 1: %d premises (initialisation, preservation, exit) generated by executing the function's own "
+                           "statements on a matrix of symbolic size; post: result[i] = target_arr[pi(i)] for the dominant-overlap bijection pi, hence a permutation of the input "
+                           "with every item at the position of its matching base vector; skipped prefix statements: %s" % (nprem, [t_ for _, t_, _ in pieces.skipped]), time_s=tot)
+
+    def E_products(env, E):
+        return [v.origin for v in env.values() if isinstance(v, E.SymMat)]
+
+    s.oblige("C20.evec_sort.loop_rule(all dimensions)", lambda: with_pre(), [SORT])
+    s.canary("C20.canary.evec_sort_with_ties_allowed(eps=1/2)", lambda: with_pre(z3.RealVal("1/2")))
+
+    def pieces_are_the_function():
+        """engine self-check: prefix + iterated body + suffix, executed by CPython on concrete inputs with the real numpy, is the function"""
+        from vf import looprule
+        rnd = numpy.random.RandomState(7)
+        bad = []
+        for t in range(12):
+            d = int(rnd.randint(1, 7))
+            base = rnd.normal(size=(d, d)) + 1j * rnd.normal(size=(d, d))
+            targ = rnd.normal(size=(d, d)) + 1j * rnd.normal(size=(d, d))
+            items = list(range(d))
+            want = es.evec_sort(list(items), [list(x) for x in targ], [list(x) for x in base])
+            p = looprule.Pieces(es.evec_sort, 0)
+            o = p.run(p.prefix, {"target_arr": list(items), "target_evecs": [list(x) for x in targ], "base_evecs": [list(x) for x in base], "filter": None, "threshold": None})
+            env = o.env
+            _, it = p.loop_header(env)
+            for x in it:
+                env = p.run_body(env, x).env
+            got = p.run_suffix(env).value
+            if got != want:
+                bad.append((d, got, want))
+        s.crosscheck("looprule pieces of evec_sort vs the function (CPython, real numpy)", 12, bad)
+    pieces_are_the_function()
+
+    def counting():
+        from vf import lean
+        return lean.check_file("lemmas/Counting.lean")
+    s.oblige("C20.lemma.counting(lean)", counting, [SORT])
+
+
+def native_sort(es):
+    """a failing native input for the sort: a re-phased, permuted, 3 %-perturbed unitary basis"""
+    rnd = numpy.random.RandomState(3)
+    for t in range(60):
+        d = int(rnd.randint(2, 12))
+        cplx = t % 2 == 0
+        g = rnd.normal(size=(d, d)) + (1j * rnd.normal(size=(d, d)) if cplx else 0)
+        base = numpy.linalg.qr(g)[0].T
+        perm = rnd.permutation(d)
+        ph = numpy.exp(1j * rnd.uniform(0, 6.28, size=d)) if cplx else rnd.choice([-1.0, 1.0], size=d)
+        noise = rnd.normal(size=(d, d))
+        noise = noise / numpy.linalg.norm(noise, axis=1)[:, None]
+        if t % 3 == 1:          # adversarial: the whole 5 % along one other base vector / against the matching one
+            noise = 0.6 * base[(perm + 1) % d] - 0.8 * ph[:, None] * base[perm]
+        target = ph[:, None] * base[perm] + (0.05 if t % 3 else 0.03) * noise
+        items = ["item%d" % j for j in range(d)]
+        want = [None] * d
+        for j in range(d):
+            want[perm[j]] = items[j]
+        try:
+            got = es.evec_sort(list(items), [list(r) for r in target], [list(r) for r in base])
+        except Exception as e:
+            return {"reproduced": True, "dimension": d, "complex": cplx, "raised": repr(e)[:200]}
+        if got != want:
+            return {"reproduced": True, "dimension": d, "complex": cplx, "permutation": perm.tolist(), "observed": got, "expected": want}
+    return {"reproduced": False}
 
 
 def sqrt_links(goal):
@@ -314,13 +550,18 @@ def bounded_load(s):
 MANIFEST = {
     "engine": "symnp", "category": "other",
     "technique": "contract-based deductive verification of evec_disp2eig (real function on object arrays of symbolic reals, z3 NRA, lemmas for unit "
-                 "norm and basis restoration, frame); bounded run-time contracts for evec_sort and evec_load",
+                 "norm and basis restoration, frame) and of evec_sort (Hoare loop rule: the function's own prefix / loop body / suffix executed on a matrix of "
+                 "symbolic dimension, invariant premises by z3, counting lemmas by Lean); bounded run-time contracts for evec_sort and evec_load",
     "text": "evec_disp2eig is executed by real numpy on symbolic displacement matrices and masses (sizes (N,M) in {(1,1),(1,3),(2,2),(2,6)}, values "
             "unbounded): every entry is proved to be a_ij sqrt(m_j)/sqrt(sum_j a_ij^2 m_j) on every value-dependent path, the input is not written, "
             "width != 3N raises; lemmas over that contract: rows have unit norm, and displacement vectors lambda_i u_i/sqrt(m) of an orthonormal basis "
             "come back as +-u_i. Bounded: orthonormality restored for random real/complex bases over 33 orders of magnitude of masses and 16 of "
-            "amplitudes; evec_sort places every item at the position of its matching base vector and returns a permutation (all permutations for "
-            "d <= 4, random d <= 60, phases, 5 % perturbation), rejects dimension mismatches; evec_load returns the printed values of rendered files.",
-    "note": "The greedy sort (argmax loop on a matrix of symbolic size) and the fixed-column file loader are outside the deductive engines: bounded "
-            "stand-ins only (40+33 / 2000+33 sort cases, 12 / 300 files, 30 / 1500 conversion cases).",
+            "amplitudes. evec_sort: the statements before, inside and after the greedy loop are cut out of the current source and executed unchanged on an "
+            "overlap matrix of symbolic dimension n (entries in an abstract normed field, so real and complex); initialisation, preservation and exit "
+            "premises of the invariant are discharged by z3 for every n, the ghost counter by three Lean lemmas; post: result[i] = target_arr[pi(i)] "
+            "for the dominant-overlap bijection pi. Bounded as well: all permutations for d <= 4, random d <= 60, phases, 5 % perturbation, dimension "
+            "mismatches rejected; evec_load returns the printed values of rendered files.",
+    "note": "For evec_sort the step from 'permuted, re-phased, 5 %-perturbed unitary basis' to the dominance precondition is a stated lemma (A-DOM), the "
+            "dimension check in front of the loop is only enumerated, argmax / unravel_index / matmul are contract stubs. The fixed-column file loader is "
+            "outside the deductive engines: bounded stand-in only (12 / 300 files; 40+33 / 2000+33 sort cases, 30 / 1500 conversion cases).",
 }
